@@ -26,6 +26,10 @@ pub struct X {
     instant: bool,
     term: Term,
     term_time: u32,
+    /// the actor is restarted once before the terminating action: the timers registered in
+    /// started() exist twice over its life, so the per-timer timing clauses are left to C07 and
+    /// only "dies with the actor / never prolongs it / nothing leaked" are checked
+    restarted: bool,
 }
 
 fn timer_id(a: &Action) -> u8 {
@@ -63,7 +67,7 @@ fn oracle(s: &ProgScene<X>, t: &Trace) -> Vec<Violation> {
             .map(|e| (e.idx, e.time))
             .collect();
         // always: the k-th delivery is not before t0 + k*P; one-shots at most once
-        for (k, (_, time)) in fires.iter().enumerate() {
+        for (k, (_, time)) in fires.iter().enumerate().filter(|_| !x.restarted) {
             crate::check::oblige("not-before-period");
             let earliest = t0 + (k as u64 + 1) * p;
             if *time < earliest {
@@ -74,7 +78,7 @@ fn oracle(s: &ProgScene<X>, t: &Trace) -> Vec<Violation> {
                 });
             }
         }
-        if !repeating && fires.len() > 1 {
+        if !repeating && fires.len() > 1 && !x.restarted {
             out.push(Violation {
                 clause: "one-shot-once",
                 key: format!("C10/{kind}/fired-twice/{mode}"),
@@ -93,7 +97,7 @@ fn oracle(s: &ProgScene<X>, t: &Trace) -> Vec<Violation> {
             }
         }
         // exact: on an otherwise idle actor with instant handlers, exactly at t0 + k*P
-        if !x.racy && x.instant {
+        if !x.racy && x.instant && !x.restarted {
             // the actor is "otherwise idle" only until the terminating action is issued: ticks
             // strictly before that instant must be handled at their exact time; ticks at or
             // after it (same-instant ties, ticks queued behind a slow failing message) may or
@@ -169,7 +173,8 @@ fn oracle(s: &ProgScene<X>, t: &Trace) -> Vec<Violation> {
 }
 
 fn s_horizon(s: &ProgScene<X>) -> u64 {
-    if s.extra.term == Term::Never { HORIZON } else if s.extra.instant { HORIZON.max(s.extra.term_time as u64 + 8) } else { SLOW_HORIZON }
+    // (restart cases: the client's program is longer by at most 3 ticks)
+    if s.extra.term == Term::Never { HORIZON } else if s.extra.instant { HORIZON.max(s.extra.term_time as u64 + 8) + if s.extra.restarted { 3 } else { 0 } } else { SLOW_HORIZON }
 }
 
 const HORIZON: u64 = 9;
@@ -197,6 +202,14 @@ fn make_case(timers: &[(Action, bool)], term: Term, term_time: u32, mailbox: Mai
         ops.push(Op::Sleep(1));
     }
     let mut spawn = SpawnCfg { mailbox, strat: Strat::Default, timeout: None };
+    let restart = RESTART_FIRST.with(|r| r.get());
+    if let Some((at, recreate)) = restart {
+        if recreate {
+            spawn.strat = Strat::Recreate;
+        }
+        ops.push(Op::Sleep(at));
+        ops.push(Op::Restart(H::Addr(0)));
+    }
     ops.push(Op::Sleep(term_time));
     match term {
         Term::Stop => ops.push(Op::Stop(H::Addr(0))),
@@ -214,12 +227,16 @@ fn make_case(timers: &[(Action, bool)], term: Term, term_time: u32, mailbox: Mai
     }
     let instant = work == Work::default();
     let desc = format!(
-        "timers {:?} term={:?}@{} mailbox={} work={}s racy={}",
+        "timers{} {:?} term={:?}@{} mailbox={} work={}s racy={}",
+        match restart {
+            Some((at, rec)) => format!(" [restarted at t={at}{}]", if rec { ", recreate" } else { "" }),
+            None => String::new(),
+        },
         timers, term, term_time, mailbox.name(), work.sleep, racy
     );
     Case {
         desc,
-        exec: ExecCfg { horizon: if term == Term::Never { HORIZON } else if instant { HORIZON.max(term_time as u64 + 8) } else { SLOW_HORIZON }, max_early_fires: if racy { early } else { 0 },
+        exec: ExecCfg { horizon: if term == Term::Never { HORIZON } else if instant { HORIZON.max(term_time as u64 + 8) + if restart.is_some() { 3 } else { 0 } } else { SLOW_HORIZON }, max_early_fires: if racy { early } else { 0 },
             // the timeout's select! tie-break is C11's subject; here no handler duration equals the timeout
             select_choice: false,
             ..ExecCfg::default()
@@ -230,10 +247,22 @@ fn make_case(timers: &[(Action, bool)], term: Term, term_time: u32, mailbox: Mai
             attach: crate::progscene::attach_for(mailbox),
             roles: vec![role],
             clients: vec![ClientSpec { init: vec![HInit::Addr], ops }],
-            extra: X { timers: timers.to_vec(), racy, instant, term, term_time },
+            extra: X { timers: timers.to_vec(), racy, instant, term, term_time, restarted: restart.is_some() },
             oracle,
         }),
     }
+}
+
+thread_local! {
+    /// Some((time, recreate)): the client restarts the actor once, at that time, before the rest
+    static RESTART_FIRST: std::cell::Cell<Option<(u32, bool)>> = const { std::cell::Cell::new(None) };
+}
+
+fn with_restart_first<T>(at: u32, recreate: bool, f: impl FnOnce() -> T) -> T {
+    RESTART_FIRST.with(|r| r.set(Some((at, recreate))));
+    let v = f();
+    RESTART_FIRST.with(|r| r.set(None));
+    v
 }
 
 fn timer_of(kind: u8, id: u8, p: u32) -> Action {
@@ -378,6 +407,19 @@ fn cases(tier: Tier) -> Vec<Case> {
         c.exec.select_choice = false;
         c
     }));
+    // ... a restart before the end (every seventh case; thorough: every second; both restartable
+    // strategies; restart at t=1 or t=3): timers registered by the first incarnation must be gone
+    // for good - nothing fires after the termination, no timer task is left over
+    for (k, (at, recreate)) in [(1u32, false), (3, true), (3, false), (1, true)].into_iter().enumerate() {
+        let step = if tier == Tier::Thorough { 2 } else { 4 };
+        let extra = with_restart_first(at, recreate, || plain_cases(tier));
+        v.extend(extra.into_iter().enumerate().filter(|(i, c)| i % step == k % step && !c.desc.contains("term=Never") && c.desc.contains("work=0s racy=false") && c.desc.matches("timer:").count() == 1).map(|(_, c)| c));
+    }
+    // ... and every fifth case (thorough: every second) with a handler timeout nobody comes near
+    // and a bounded mailbox that never fills: tick handlers run under the same limit as any other
+    let step = if tier == Tier::Thorough { 2 } else { 5 };
+    let amb = crate::scenes::Ambient { generous_timeout: true, roomy: true, ..Default::default() };
+    v.extend(crate::check::with_ambient(plain_cases(tier).into_iter().enumerate().filter(|(i, c)| i % step == 3 % step && !c.desc.contains("TimeoutFail")).map(|(_, c)| c).collect(), amb));
     v
 }
 
